@@ -315,6 +315,16 @@ class Program:
             raise AnchorLost(f"function `{path}` not found in the fact base")
         return self.fns[path]
 
+    def method(self, self_ty, name):
+        """unique fn named `name` in an impl block of `self_ty` (any module)"""
+        hits = [f for f in self.fns.values() if f.kind == "assoc_fn" and f.impl_self == self_ty and f.path.rsplit("::", 1)[-1] == name]
+        if len(hits) != 1:
+            raise AnchorLost(f"method `{self_ty}::{name}`: {len(hits)} candidates")
+        return hits[0]
+
+    def methods_of(self, self_ty):
+        return [f for f in self.fns.values() if f.kind == "assoc_fn" and f.impl_self == self_ty]
+
     def has(self, path):
         return path in self.fns
 
